@@ -155,7 +155,7 @@ def main(c):
         # (a) page statistics written by carquet
         exe1 = vlib.build_driver('c01', 'plain')
         shards = []
-        for k in range(8 if thorough else 3):
+        for k in range(4 if thorough else 3):
             w = os.path.join(base, 'w%d' % k); kd = os.path.join(base, 'k%d' % k); os.makedirs(w); os.makedirs(kd)
             shards.append(['gen', c.seed * 1000 + 500 + k, 2 if thorough else 1, w, kd])
         c2 = vlib.Check('C16', 'exploration', ['--tier', c.tier])
